@@ -39,3 +39,26 @@ Definition gen_ok (c : Z * bool * bool * list Z) : bool :=
   let '(hex, minify, unsup, out) := c in
   zlist_eqb (render_ctoken (generate_color shortColorName minify unsup hex)) out.
 Definition check_gen := mismatches gen_ok.
+
+(* ---- cascade: the Go evaluator's winner against Cascade.winner ---- *)
+From V Require Import C12.Cascade.
+
+Definition mem (x : Z) (l : list Z) : bool := existsb (Z.eqb x) l.
+Fixpoint assoc_zz (k : Z) (l : list (Z * Z)) : Z :=
+  match l with [] => 0 | (k', v) :: r => if k' =? k then v else assoc_zz k r end.
+
+Definition mk_item (c : bool * list Z * list Z * list Z * list (Z * Z * bool * Z)) : item :=
+  let '(stmt, conds, layer, sels, decls) := c in
+  mkItem stmt conds layer sels (map (fun d => let '(pr, v, imp, syn) := d in mkDecl pr v imp syn) decls).
+
+(* (items, true condition ids, understood selector ids, selector ids matching the
+   element, specificity table, property, Go winner value id or -1) *)
+Definition casc_ok (c : list (bool * list Z * list Z * list Z * list (Z * Z * bool * Z)) * list Z * list Z * list Z * list (Z * Z) * Z * Z) : bool :=
+  let '(items, trueconds, und, matching, specs, p, wexp) := c in
+  let w := mkWorld (fun c => mem c trueconds) (fun s => mem s und) (fun syn => syn =? 0)
+                   (fun s _ => mem s matching) (fun s => assoc_zz s specs) in
+  match winner w (map mk_item items) 0 p with
+  | Some v => v =? wexp
+  | None => wexp =? -1
+  end.
+Definition check_casc := mismatches casc_ok.
